@@ -74,6 +74,30 @@ func (vm *vm) vtAsync(ev string) {
 	VerifSink(vm.r, []byte(`{"ev":"`+ev+`","a":"","async":1}`))
 }
 
+// vtInstr runs before every instruction of the main interpreter loop: it counts the instructions that start although
+// the interrupt flag is already set (the poll of this iteration has missed it, or was skipped). vtLate reports and
+// resets the count when the interrupt is finally noticed ("IntLate" event): promptness means the count is <= 1.
+var verifLate sync.Map // *vm -> *int32
+
+func (vm *vm) vtInstr() {
+	if VerifSink == nil {
+		return
+	}
+	if atomic.LoadUint32(&vm.interrupted) != 0 {
+		c, _ := verifLate.LoadOrStore(vm, new(int32))
+		*(c.(*int32))++
+	}
+}
+
+func (vm *vm) vtLate() string {
+	if c, ok := verifLate.Load(vm); ok {
+		n := *(c.(*int32))
+		verifLate.Delete(vm)
+		return strconv.Itoa(int(n))
+	}
+	return "0"
+}
+
 func (vm *vm) vtTryPush(catchPos, finallyPos int32) {
 	if VerifSink == nil {
 		return
